@@ -101,6 +101,12 @@ pub enum ContractError {
     #[error("Attempt to decrease the max concurrent farms to a value that is less than the current amount of concurrent farms")]
     MaximumConcurrentFarmsDecreased,
 
+    #[error("max_concurrent_farms cannot exceed {max}, the most farms per LP the contract can handle at a time")]
+    MaximumConcurrentFarmsExceeded {
+        /// The highest value max_concurrent_farms can take
+        max: u32,
+    },
+
     #[error("The {which} epoch for this farm is invalid")]
     InvalidEpoch { which: String },
 
